@@ -30,6 +30,13 @@ var classByRoot = []struct{ pkg, typ, name, anon, class string }{
 // GoroutineClasses discovers the goroutine roots of own code: callees of `go` statements,
 // callbacks handed to time.AfterFunc, and main.main.
 func (p *Program) GoroutineClasses() map[string]*GClass {
+	if p.gclasses == nil {
+		p.gclasses = p.goroutineClasses()
+	}
+	return p.gclasses
+}
+
+func (p *Program) goroutineClasses() map[string]*GClass {
 	roots := map[*ssa.Function]bool{}
 	spawner := map[*ssa.Function]*ssa.Function{} // root -> the declared function that starts it
 	timerRoot := map[*ssa.Function]bool{}        // started by time.AfterFunc
